@@ -27,24 +27,6 @@ package client
 //@   lockonly
 //@ func (*PeriodicTimer).Stop
 //@   lockonly
-//@ func (*Transaction).Retries
-//@   lockonly
-//@ func (*Transaction).StartRtxTimer
-//@   lockonly
-//@ func (*Transaction).StartRtxTimer$1
-//@   lockonly
-//@ func (*Transaction).StopRtxTimer
-//@   lockonly
-//@ func (*TransactionMap).CloseAndDeleteAll
-//@   lockonly
-//@ func (*TransactionMap).Delete
-//@   lockonly
-//@ func (*TransactionMap).Find
-//@   lockonly
-//@ func (*TransactionMap).Insert
-//@   lockonly
-//@ func (*TransactionMap).Size
-//@   lockonly
 //@ func (*UDPConn).Close
 //@   lockonly
 //@ func (*UDPConn).maybeBind
@@ -83,3 +65,110 @@ package client
 //@   lockonly
 //@ func (*permissionMap).insert
 //@   lockonly
+
+//@      // ---- C12: client transactions (transaction.go). A transaction is sent once by PerformTransaction and once per
+//@      // timer firing while nRtx < 7; each firing adds one to nRtx and doubles the interval up to 1.6 s.
+//@ spec func maxRtx() int = 1600000000
+
+//@ func NewTransaction
+//@   pure
+//@   requires config != nil
+//@   ensures res != nil && fresh(res) && res.Key == config.Key && sameSlice(res.Raw, config.Raw) && res.To == config.To
+//@   ensures [C12:starts-at-rto] res.nRtx == 0 && res.interval == config.Interval && res.timer == nil
+//@   ensures [C12:result-channel] (res.resultCh == nil) == config.IgnoreResult
+//@   ensures !held(res.mutex) && !rheld(res.mutex)
+
+//@ func (*Transaction).StartRtxTimer
+//@   requires t != nil && !held(t.mutex) && !rheld(t.mutex)
+//@   ensures [C12:armed-with-interval] t.timer != nil && fresh(t.timer) && armed(t.timer) && dur(t.timer) == t.interval
+//@   ensures [C12:timer-action] clofn(timerfn(t.timer)) == fnid("(*Transaction).StartRtxTimer$1") && *clovar(timerfn(t.timer), "(*Transaction).StartRtxTimer$1", 0) == t && *clovar(timerfn(t.timer), "(*Transaction).StartRtxTimer$1", 1) == onTimeout
+//@   ensures t.interval == old(t.interval) && t.nRtx == old(t.nRtx)
+//@   ensures forall x :: x != t.timer ==> dur(x) == old(dur(x)) && armed(x) == old(armed(x)) && timerfn(x) == old(timerfn(x))
+//@   assigns t.timer, timers
+
+//@ func (*Transaction).StartRtxTimer$1
+//@   requires t != nil && !held(t.mutex) && !rheld(t.mutex) && onTimeout != nil
+//@   requires 0 <= t.interval && t.interval < 4611686018427387904 && t.nRtx < 9223372036854775807
+//@   at-call dynamic func(trKey string, nRtx int) assert [C12:one-more] t.nRtx == old(t.nRtx) + 1 && arg1 == t.nRtx && arg0 == t.Key
+//@   at-call dynamic func(trKey string, nRtx int) assert [C12:doubles-capped] t.interval == min(2 * old(t.interval), maxRtx())
+//@   at-call dynamic func(trKey string, nRtx int) assert [C18:callback-unlocked] !held(t.mutex) && !rheld(t.mutex)
+
+//@ func (*Transaction).StopRtxTimer
+//@   requires t != nil && !held(t.mutex) && !rheld(t.mutex)
+//@   ensures [C12:stopped] t.timer != nil ==> !armed(t.timer)
+//@   ensures forall x :: x != t.timer ==> armed(x) == old(armed(x))
+//@   ensures forall x :: dur(x) == old(dur(x)) && timerfn(x) == old(timerfn(x))
+//@   assigns timers
+
+//@      // WriteResult is a rendezvous with the goroutine blocked in WaitForResult (unbuffered channel): `blocking` says the
+//@      // send may block by design; that a receiver is waiting is a liveness fact outside these contracts.
+//@ func (*Transaction).WriteResult
+//@   requires t != nil
+//@   blocking
+//@   ensures res == (t.resultCh != nil)
+//@   assigns channels
+
+//@ func (*Transaction).WaitForResult
+//@   requires t != nil
+//@   ensures [C12:no-channel] t.resultCh == nil ==> res.Err == errWaitForResultOnNonResultTransaction
+//@   assigns channels
+
+//@ func (*Transaction).Close
+//@   requires t != nil && (t.resultCh == nil || !closed(t.resultCh))
+//@   ensures t.resultCh != nil ==> closed(t.resultCh)
+//@   ensures forall c :: c != t.resultCh ==> closed(c) == old(closed(c))
+//@   assigns channels
+
+//@ func (*Transaction).Retries
+//@   requires t != nil && !held(t.mutex)
+//@   ensures res == t.nRtx
+//@   pure
+
+//@      // the table maps each pending transaction's own key to it (so entries are pairwise distinct), and a pending
+//@      // transaction's result channel is open: it is closed only by CloseAndDeleteAll, which also removes the entry
+//@ spec func trMapWF(m *TransactionMap) bool = m != nil && m.trMap != nil && (forall k :: haskey(m.trMap, k) ==> valat(m.trMap, k) != nil && valat(m.trMap, k).Key == k && (valat(m.trMap, k).resultCh == nil || !closed(valat(m.trMap, k).resultCh))) && (forall j, k :: haskey(m.trMap, j) && haskey(m.trMap, k) && j != k && valat(m.trMap, j).resultCh != nil ==> valat(m.trMap, j).resultCh != valat(m.trMap, k).resultCh)
+
+//@ func NewTransactionMap
+//@   pure
+//@   ensures res != nil && fresh(res) && res.trMap != nil && (forall k :: !haskey(res.trMap, k)) && !held(res.mutex) && !rheld(res.mutex)
+
+//@ func (*TransactionMap).Insert
+//@   requires m != nil && m.trMap != nil && !held(m.mutex) && !rheld(m.mutex)
+//@   ensures res && has(m.trMap, key) && m.trMap[key] == tr
+//@   ensures forall k :: k != key ==> haskey(m.trMap, k) == old(haskey(m.trMap, k)) && valat(m.trMap, k) == old(valat(m.trMap, k))
+//@   assigns entries(m.trMap)
+
+//@ func (*TransactionMap).Find
+//@   requires m != nil && !held(m.mutex)
+//@   ensures res1 == has(m.trMap, key) && (res1 ==> res0 == m.trMap[key]) && (!res1 ==> res0 == nil)
+//@   pure
+
+//@ func (*TransactionMap).Delete
+//@   requires m != nil && !held(m.mutex) && !rheld(m.mutex)
+//@   ensures !has(m.trMap, key)
+//@   ensures forall k :: k != key ==> haskey(m.trMap, k) == old(haskey(m.trMap, k)) && valat(m.trMap, k) == old(valat(m.trMap, k))
+//@   assigns entries(m.trMap)
+
+//@ func (*TransactionMap).Size
+//@   requires m != nil && !held(m.mutex)
+//@   ensures res == len(m.trMap)
+//@   pure
+
+//@ func (*TransactionMap).CloseAndDeleteAll
+//@   requires m != nil && !held(m.mutex) && !rheld(m.mutex)
+//@   requires trMapWF(m)
+//@   ensures [C12:nothing-left] forall k :: !haskey(m.trMap, k)
+//@   ensures [C12:all-closed] forall k :: old(haskey(m.trMap, k)) && old(valat(m.trMap, k)).resultCh != nil ==> closed(old(valat(m.trMap, k)).resultCh)
+//@   loop 0 invariant forall k :: haskey(m.trMap, k) ==> old(haskey(m.trMap, k)) && valat(m.trMap, k) == old(valat(m.trMap, k)) && !seenkey(k)
+//@   loop 0 invariant forall k :: old(haskey(m.trMap, k)) && !haskey(m.trMap, k) && old(valat(m.trMap, k)).resultCh != nil ==> closed(old(valat(m.trMap, k)).resultCh)
+//@   loop 0 invariant held(m.mutex) && trMapWF(m)
+//@   assigns entries(m.trMap), channels
+
+//@      // ---- C13 (inbound side): delivering to the relayed socket / the accept queue never blocks the client's read loop
+//@ func (*UDPConn).HandleInbound
+//@   requires c != nil && c.log != nil
+//@   assigns channels
+
+//@ func (*TCPAllocation).HandleConnectionAttempt
+//@   requires a != nil && a.log != nil
+//@   assigns channels
